@@ -27,7 +27,7 @@ SPEC = {
                     'os.scandir order is stable within one process'],
 }
 
-OPT = ['NOUNIQUE', 'IGNORECASE', 'CASE', 'NODIR', 'SCANDOTDIR', 'GLOBSTAR', 'DOTGLOB', 'MARK', 'NEGATEALL']
+OPT = ['NOUNIQUE', 'IGNORECASE', 'CASE', 'NODIR', 'SCANDOTDIR', 'GLOBSTAR', 'DOTGLOB', 'MARK', 'NEGATEALL', 'MATCHBASE']
 
 
 def fold(x, icase):
